@@ -346,6 +346,23 @@ impl Driver {
         true
     }
 
+    /// Embedder action between polls: make app `idx` invalid in place (empty id and / or version 0).
+    pub fn invalidate_app(&mut self, idx: usize, empty_id: bool, zero_version: bool) -> bool {
+        let Some(a) = &self.app_set else { return false };
+        let Some(mut g) = a.try_lock() else { return false };
+        if let Some(app) = g.iter_mut_apps().nth(idx) {
+            if empty_id {
+                app.id = String::new();
+            }
+            if zero_version {
+                app.version = Version::from([0]);
+            }
+        }
+        drop(g);
+        lock(&self.w).push(Ev::Note("app invalidated by the embedder".into()));
+        true
+    }
+
     pub fn crashed(&self) -> bool {
         lock(&self.w).crashed
     }
